@@ -22,7 +22,9 @@ RULE = ("Hypothesis draws an invertible, well-conditioned operator tree over eve
         "the caller's right-hand side must be unchanged."
         " Further: operators rescaled by 10^+-3 and a Jacobi preconditioner for CG; a mid mode (dense systems of"
         " 30..60 rows under CG, CG+P, GMRES, Auto, Cholesky, LU, where the tolerance decides); operators within 1e-6"
-        " of the identity / of a unit-diagonal triangular matrix.")
+        " of the identity / of a unit-diagonal triangular matrix."
+        " Round 5: tridiagonal operators with vanishing leading minors (alone and inside Kronecker / BlockDiag /"
+        " Product), scalar multiples of declared-unitary operators under T / H.")
 ASSUMPTIONS = [
     "direct paths: |A x - b| <= 1e3 n eps (|A||x| + |b|) with eps of the coarsest dtype in the tree; inverse matrix to 1e3 eps cond; iterative paths: |A x - b| <= 20 tol |b| cond-free plus the direct bound",
     "in-contract refusals (AssertionError: CG / Cholesky on operators not declared PSD) are tallied, not failures",
